@@ -64,15 +64,7 @@ fn vpanic() requires false { }
 //@  | path\.drain\(([^;]+?)\.\.([^;]+?)\);
 //@  > vec_drain_range(&mut path, \1, \2);
 //@  ret res
-//@  spec
-    requires
-        end <= path@.len(),
-        begin < end ==> path@[begin as int].begin_bytes <= path@[end - 1].end_bytes,
-        begin < end ==> sum_hwl(path@, begin as int, end as int) <= u16::MAX,
-    ensures
-        begin >= end ==> res is Err,
-        begin < end ==> res is Ok && merged_at(path@, res->Ok_0@, begin as int, end as int)
-            && res->Ok_0@[begin as int].word_info.data.pos_id == pos_id,
+//@  specfile specs/concat_oov_nodes.contract
 //@  atstart
     let ghost orig = path@;
 //@  loop 1
